@@ -27,8 +27,8 @@ fn cfgs() -> Vec<(Cfg, bool)> {
     let u1 = Cfg::single(vec![CPat::new("\\p{Lowercase}+", 0), CPat::new("[x-z]+\\d", 1), CPat::new("\\d+", 2)]);
     let u2 = Cfg::single(vec![CPat::new("\\d+", 5), CPat::new("\\p{Lowercase}", 1)]);
     let u3 = Cfg::single(vec![CPat::new("\\p{Lowercase}+", 0), CPat::new("\\p{Greek}+", 1), CPat::new("\\d+", 2)]);
-    // deeply nested patterns (40 groups), built outside the cache
-    let deep = |inner: &str, tt: usize| Cfg::single(vec![CPat::new(&format!("{}{inner}{}", "(".repeat(40), ")".repeat(40)), tt), CPat::new("[ab1]", tt + 1)]);
+    // deeply nested patterns (130 groups), built outside the cache
+    let deep = |inner: &str, tt: usize| Cfg::single(vec![CPat::new(&format!("{}{inner}{}", "(".repeat(130), ")".repeat(130)), tt), CPat::new("[ab1]", tt + 1)]);
     let (d1, d2, d3) = (deep("a+", 7), deep("b|É", 3), deep("a(?i)", 1));
     vec![(a, true), (a2, true), (b, true), (bad, true), (bad2, true), (u1, false), (u2, false), (u3, false), (d1, false), (d2, false), (d3, false)]
 }
